@@ -69,6 +69,7 @@ func Init() (err error) {
 	// 2. panic
 	// 3. undefined cmd (possible race condition)
 	defer func() {
+		verifEvent("init", "exit")
 		if err := recover(); err != nil {
 			fmt.Fprintf(os.Stderr, "container_exit: panic: %v\n", err)
 			os.Exit(1)
@@ -131,7 +132,9 @@ func (c *containerServer) sendLoop() {
 			if !ok {
 				return
 			}
+			verifBegin()
 			err := c.socket.SendMsg(rep.Reply, rep.Msg)
+			verifEndReply("init", &rep.Reply, rep.Msg, err)
 			for _, f := range rep.FileToClose {
 				f.Close()
 			}
@@ -150,6 +153,7 @@ func (c *containerServer) recvLoop() {
 	for {
 		var cmd cmd
 		msg, err := c.socket.RecvMsg(&cmd)
+		verifRecvCmd("init", &cmd, err)
 		if err != nil {
 			c.socketError(err)
 			return
@@ -211,6 +215,7 @@ func (c *containerServer) serve() error {
 		if err != nil {
 			return fmt.Errorf("serve: recvCmd: %w", err)
 		}
+		verifCmdEvent("init", "handle", &cmd)
 		if err := c.handleCmd(cmd, msg); err != nil {
 			return fmt.Errorf("serve: failed to execute cmd: %w", err)
 		}
